@@ -608,13 +608,13 @@ class PosPriorityQueue(Generic[T]):
         except the one in the immediate priority class which have
         a fixed ordering.
         """
-        newpri = []
+        # update the priorities in place and restore the heap.  The entries keep
+        # their sequence numbers, so that positional entries, and entries which end
+        # up with equal priorities, retain their relative order.
         for pri, obj in self._pq.items():
             if pri.priority_class != 0:
                 pri.base_priority = self._get_priority(obj)
-            newpri.append((pri, obj))
-        self._pq.clear()
-        self._pq.extend(newpri)
+        self._pq.refresh()
 
 
 class EventLoopLike(Protocol):  # pragma: no cover
